@@ -165,6 +165,11 @@ class OpCase:
         Tn = T()
         gdtype = self.variant.get("gdtype")
         gs = []
+        if any(t.requires_grad for t in ts):
+            # the forward call was accepted and an operand requires grad: backward must be able to reach it
+            out.fact("the result of an accepted call with an operand that requires grad can be differentiated",
+                     all(oo.requires_grad for oo in outs),
+                     "requires_grad of the operands %s, of the results %s" % ([bool(t.requires_grad) for t in ts], [bool(oo.requires_grad) for oo in outs]))
         for k, oo in enumerate(outs):
             if not oo.requires_grad:
                 continue
